@@ -27,7 +27,9 @@ CONSTANTS
   LeakHandleState,       \* C09 control: Eval results alias handle-owned objects
   CloseOnCompileSuccess, \* C11 control: stand-alone compile closes the channel
   SkipCloseOnError,      \* C11 control: an error path forgets the close
-  PanicEscapes           \* C17 control: a stage failure escapes as a panic
+  PanicEscapes,          \* C17 control: a stage failure escapes as a panic
+  LockAcrossDispatch     \* C10 control: stage 5 runs under a process-wide lock taken before its
+                         \* Start event is dispatched and released after its Done event
 
 Rep(p, d, cfg) == <<"report", p, d, cfg>>        \* uninterpreted report value
 Configs == {"default", "alt"}
@@ -106,6 +108,8 @@ Call(p) ==
 
 StartStage(p) ==
   /\ pc[p] = "ready"
+  /\ (LockAcrossDispatch /\ stage[p] = 5) =>
+        \A q \in Procs \ {p} : ~(pc[q] = "in" /\ stage[q] = 5)
   /\ Emit(p, Ev(stage[p], "Start"))
   /\ pc' = [pc EXCEPT ![p] = "in"]
   /\ UNCHANGED <<stage, call, ncalls, closes, owner, handles, gen, tmp, names, ret>>
